@@ -161,9 +161,9 @@ impl Explorer<'_> {
                                 first = false;
                             }
                             rv += 1;
-                            if world.app.storage().data != es.s.storage.data {
+                            if world.app.storage().data != es.s.storage.data && ctx.id == "C19" {
                                 ctx.violation(
-                                    &format!("{}:replay-from-genesis-differs-from-snapshot-derived-state", ctx.id.to_lowercase()),
+                                    "c19:replay-from-genesis-differs-from-snapshot-derived-state:tree",
                                     json!({"explorer": self.name, "path": es.path, "ops": es.path.iter().map(|i| program_json(&self.alphabet[*i as usize])).collect::<Vec<_>>()}),
                                 );
                             }
